@@ -42,7 +42,7 @@ CLAIMED = {
             "sam variants --aggregate shares AggregateWriteVariants with variants;", "5 C13"),
     "C14": ("Proved for every feature AST (strand, any number of segments, codon_start): the ordered position list derived on the GenBank path, for complement(join(..)) and for join(complement(..),..), equals the one derived on the GFF3 path from the equivalent rows; and a consistent annotation (the GenBank /translation is what the CDS translates to) gives the SAME region record (name, strand, ordered positions, residues) on both paths, for every list of features - so the variant caller, one function of the rows and the regions, receives identical inputs. Correspondence: one AST rendered both ways, parsed by the real code; regions compared field by field (name, strand, positions, translation) with the AST-level Coq model; variants run with each rendering on the same alignment must list the same mutations; each output byte for byte against the Coq caller model and against the statement-level oracle.",
             "Coq proof (AST-level position lists) + correspondence check over both renderings",
-            "The text parsers (FEATURES/ORIGIN, GFF rows, location strings) are modelled at AST level only and exercised by rendering and re-parsing.", "5 C14"),
+            "Since rounds 6-8 the GenBank location strings, the FEATURES and ORIGIN blocks and the GFF3 feature rows are modelled at byte level (LocationModel, GenbankModel, GffLineModel: compared with the code on every run, round-trip theorems); the ## directives and the ##FASTA section of GFF3 remain at AST level.", "5 C14"),
     "C02": ("Proved for every CIGAR over the nine operators, with and without insertion columns: the paired walk yields rows of equal length whose reference row, with its gap columns removed, is exactly the stretch of the reference the CIGAR consumes. Proved for queries described by ANY number of records (single, supplementary, overlapping): the whole pipeline - per-record rows, the re-gapping loop over the sorted insertions (find_col / regap_row), '*'-padding, column-wise flattening, right-extension - yields as reference row exactly the canonical gapped reference (after the k-th base, the total length of the block's insertions at k), so removing '-' gives exactly the reference, the gap columns are exactly the inserted bases (|R| = |ref| + total inserted length), the query row has the same length, and the query row read through the reference row (the columns where the reference row is '-' deleted) is exactly the sam toMultiAlign --pad row of the same block (so every reference position carries the aligned base / '-' / 'N'); with --skip-insertions the pair is (reference, toMultiAlign --pad row); a query without insertions gives the same pair; and when no two different records insert at the same reference position, the query row read in the gap columns is exactly the inserted bases of the records, position after position, in CIGAR order (pairk_insertions). The window cut (C15 theorem), wrap and file writer are an executable Coq model compared byte for byte with sam.ToPairAlign (directory output), and the implementation's files are compared with pairs written from the statement (reference row = reference with '-' exactly at the query's insertions; query row = toMultiAlign --pad row with the inserted bases in place).",
             "Coq proof (induction over CIGAR operators; segment representation and invariant over the re-gapping loop) + correspondence check + statement-level oracle",
             "Every clause of the statement has a theorem: the reference-row, length and aligned-position clauses for all blocks, the inserted-bases clause for blocks in which no two different records insert at the same position (the property's non-conflict case) with SEQ bytes above '-'. Hypotheses: the reference has no '-' and no byte below '*'.", "5 C02"),
@@ -57,7 +57,7 @@ CLAIMED = {
             "The pair-threshold formula (float32 ratio of hidden differences) and the writers are taken as in the code (model = spec there); FASTA/CSV reading is C09/C16.", "5 C08"),
     "C09": ("Proved: the five fields `updown list` writes for a well-formed line are parsed back to exactly that line (split/join and decimal round trips, ranges a / a-b); every line computed from a valid sequence is well-formed, so reading the CSV row of a sequence gives the line of the sequence; consequently the command core returns the same output for all four csv/fasta combinations, one row per query in order. Correspondence with the real commands: updown list derives the CSVs, topranking runs in the four combinations and the outputs must be byte-identical; the fasta/fasta run is compared with the Coq model.",
             "Coq proof (parse-print round trip at field level) + four-combination correspondence check",
-            "encoding/csv (line -> fields) is a trusted library; IDs without , \" CR LF.", "5 C09"),
+            "One line of encoding/csv is modelled (CsvModel.csv_parse, compared with the library on every run); the ID may hold any bytes but line breaks (csv_line_roundtrip, list_row_roundtrip).", "5 C09"),
     "C12": ("PARTIAL by nature. Proved: (i) the index-keyed re-ordering writer writes the input order for ANY arrival order (even with repeats) provided every arrival carries its own index and every index arrives - an invariant over the map/counter/drain loop; (ii) result arrays indexed by query position end up identical for any completion order; (iii) keys collected from a map in any iteration order and sorted by a key that totally orders them come out the same (uniqueness of the sorted permutation). Observed on the real binary (verif tag): every command's bytes under seeded scheduling jitter at the worker send sites, --threads 1..16, GOMAXPROCS 1..16 and repeated runs equal the single-threaded reference run; a -race build repeats a subset and must report no data race; the evidence counts the runs in which completion order really differed from arrival order.",
             "Coq proof (invariants over arrival/completion/map order) + schedule exploration of the binary (seeded jitter hook, thread counts, race detector)",
             "PARTIAL: absence of data races and of schedule-dependent deadlock is observed, not proved; the instantiation of (i)-(iii) at each writer/sort of the code is by reading the model, the byte comparison ties it to the code.", "5 C12"),
